@@ -30,6 +30,8 @@ POOL = {
     "CH3": ({"C": 1, "H": 3}, 0), "HCO": ({"H": 1, "C": 1, "O": 1}, 0),
     "CH3OH": ({"C": 1, "H": 4, "O": 1}, 0), "HCOOH": ({"H": 2, "C": 1, "O": 2}, 0), "HOOH": ({"H": 2, "O": 2}, 0),
     "#CH3OH": ({"C": 1, "H": 4, "O": 1}, 0), "CH3OH2+": ({"C": 1, "H": 5, "O": 1}, 1),
+    # several charge states of one base, both signs
+    "O--": ({"O": 1}, -2), "C--": ({"C": 1}, -2), "C-": ({"C": 1}, -1), "Si++": ({"Si": 1}, 2), "Si+++": ({"Si": 1}, 3),
 }
 ELEMENTS = ["H", "D", "He", "C", "O", "Si", "S"]
 
@@ -88,6 +90,8 @@ FIXED = [
     {"reactions": [(["oH2", "H+"], ["pH2", "H+"]), (["oH3+", "HD"], ["oH2D+", "oH2"]), (["H2D+", "E"], ["H", "H", "D"])], "required": ["He"]},
     {"reactions": [(["CH3OH"], ["CH3", "OH"]), (["HCOOH"], ["HCO", "OH"]), (["HOOH"], ["OH", "OH"]), (["CH3OH2+", "e-"], ["CH3OH", "H"]),
                    (["CH3OH"], ["#CH3OH"]), (["H", "O"], ["OH"]), (["C", "H"], ["CH"])], "required": []},
+    {"reactions": [(["O-", "e-"], ["O--"]), (["O--", "H+"], ["O-", "H"]), (["C--", "He++"], ["C", "He"]), (["C-", "e-"], ["C--"]),
+                   (["Si+++", "e-"], ["Si++"]), (["Si++", "O--"], ["SiO"]), (["O", "e-"], ["O-"])], "required": []},
     {"reactions": [(["He++", "e-"], ["He+"]), (["He+", "e-"], ["He", "PHOTON"]), (["H-", "H+"], ["H", "H"]), (["H", "CR"], ["H+", "e-"])], "required": []},
 ]
 
@@ -208,7 +212,7 @@ def run(res, info):
     rng = random.Random(res.seed * 7919 + 4)
     model = fw.Model() if info["ok"] else None
     res.rule = ("balanced reactions found by enumerating product multisets with the reactants' element totals and charge over a "
-                "45-species pool (ions, both electron spellings, ortho/para labels, isotopologues, ice species, formulas naming an element twice); non-trivial = "
+                "50-species pool (ions, both electron spellings, ortho/para labels, isotopologues, ice species, formulas naming an element twice, several charge states of one base); non-trivial = "
                 "at least one reaction")
     res.assumptions = ["compositions are the generator's (POOL); '*'-labelled species are outside the premise (C08 finding)"]
     n_a = 200 if res.tier == "quick" else 3000
